@@ -38,7 +38,10 @@ elif cmd == 'confirm':
         tail = t.stdout.strip().splitlines()[-1] if t.stdout.strip() else ''
         ok = r0.returncode == 0 and r1.returncode != 0 and '234 passed' in tail and 'failed' not in tail
         print('%s: demo without=%d with=%d suite="%s" -> %s' % (d, r0.returncode, r1.returncode, tail, 'CONFIRMED' if ok else 'NOT CONFIRMED'))
-        if r1.returncode: print('   demo says:', (r1.stderr.strip().splitlines() or r1.stdout.strip().splitlines() or ['?'])[-1][:200])
+        try:
+            if r1.returncode: print('   demo says:', (r1.stderr.strip().splitlines() or r1.stdout.strip().splitlines() or ['?'])[-1][:200])
+        except BrokenPipeError:
+            pass
         sys.exit(0 if ok else 1)
     finally:
         subprocess.run(['git', '-C', '/repo', 'worktree', 'remove', '--force', wt])
